@@ -239,9 +239,9 @@ theorem fence_line_clean (n : Nat) (lang : Line) (hl : LangOK lang) (cfg : Numbe
       · exact hcr_lang h
   · refine ⟨?_, ?_⟩
     · simp only [List.mem_append, List.mem_cons, List.not_mem_nil, or_false, not_or]
-      refine ⟨⟨backticks_no_nl n, hnl_lang⟩, by decide, by decide, fun h => hc (mem_trimStart h), by decide⟩
-    · have e : backticks n ++ lang ++ ' ' :: '{' :: (trimStart (joinNumbered cfg) ++ ['}'])
-          = (backticks n ++ lang ++ ' ' :: '{' :: trimStart (joinNumbered cfg)) ++ ['}'] := by simp
+      refine ⟨⟨backticks_no_nl n, hnl_lang⟩, by decide, by decide, fun h => hc (mem_blankStart h), by decide⟩
+    · have e : backticks n ++ lang ++ ' ' :: '{' :: (blankStart (joinNumbered cfg) ++ ['}'])
+          = (backticks n ++ lang ++ ' ' :: '{' :: blankStart (joinNumbered cfg)) ++ ['}'] := by simp
       rw [e, List.getLast?_append]
       simp
 
